@@ -7,6 +7,7 @@ open RtVerif
 
 def dispatch (prop : String) (ins outs : List String) : Verdict :=
   match prop with
+  | "C01" => C01.run ins outs
   | "C05" => C05.run ins outs
   | "C07" => C07.run ins outs
   | "C18" => C18.run ins outs
